@@ -39,7 +39,7 @@ m = dict(
     ],
     checks=checks,
     not_applicable=na,
-    notes="Exit codes of ./check: 0 held, 1 VIOLATION (replay file printed), 2 undecided (solver unknown / code left the verified subset; never reported as a violation), 3 checker error. See DESIGN.md.",
+    notes="Exit codes of ./check: 0 held, 1 VIOLATION (replay file printed), 2 nothing decided (no tier produced a verdict), 3 checker error. UNDECIDED lines (solver unknown on an obligation outside the baseline / code left the verified subset) are never reported as a violation; when the native and bounded tiers of the same check found nothing the exit code stays 0. See DESIGN.md.",
 )
 with open(os.path.join(HERE, "MANIFEST.json"), "w") as f:
     json.dump(m, f, indent=1)
